@@ -10,6 +10,7 @@ D=$(mktemp -d /tmp/evalseed.XXXXXX)
 trap 'rm -rf "$D"' EXIT
 rsync -a --exclude .git /repo/ "$D/repo/"
 ( cd "$D/repo" && git apply "$P" ) || { echo "patch does not apply"; exit 3; }
-cd /verif && SIM_REPO="$D/repo" SIM_EVIDENCE_DIR="$D/evidence" SIM_BUDGET_S=$B ./simcheck check $PROP --tier $T 2>&1 | cut -c1-500 | tail -6
+ROOT=$(cd "$(dirname "$0")" && pwd)
+cd "$ROOT" && SIM_REPO="$D/repo" SIM_EVIDENCE_DIR="$D/evidence" SIM_BUDGET_S=$B ./simcheck check $PROP --tier $T 2>&1 | cut -c1-500 | tail -6
 rc=${PIPESTATUS[0]}
 echo "check-exit=$rc"
